@@ -46,7 +46,7 @@ Proof. vm_compute. reflexivity. Qed.
 
 Lemma occupancy_float_rule_agrees_l : forall n p, (n <= 250)%nat -> (p <= n)%nat ->
   flag_f default_occupancy_threshold_f p n = flag_q default_occupancy_threshold p n.
-Proof. exact (agree_upto_spec 400 agree_250). Qed.
+Proof. exact (agree_upto_spec 250 agree_250). Qed.
 
 Lemma default_threshold_same_l : Q2F default_occupancy_threshold = default_occupancy_threshold_f.
 Proof. vm_compute. reflexivity. Qed.
